@@ -106,6 +106,8 @@ func variantsOf(b int) int {
 		return 6
 	case "two-lexers":
 		return 18
+	case "error-objects":
+		return 6
 	}
 	return 2
 }
